@@ -33,6 +33,28 @@ Print Assumptions C02_roster_filters_pure_in_source.
 
 (* ... and without it nothing is promised: a command to two tasks or more goes through whatever
    the critical ones answer. *)
+(* The same for the property's own assumption about the executors - "an executor acknowledges a
+   command only for a task that performed it": the core judges an answer by its error text alone, so
+   the statement holds given that the executor's message handler is faithful, ... *)
+Theorem C02_cmd_iff_given_faithful_executor : forall ts oc, executor_faithful = true ->
+  (res_ok (cmd_result ts oc) = true <-> crit_acked ts oc).
+Proof. exact cmd_iff_faithful. Qed.
+Print Assumptions C02_cmd_iff_given_faithful_executor.
+
+(* ... which is discharged from the running code: the probe of executor/handlers.go
+   handleMessageEvent that h02 -gen makes on every run (gen/Gen_ExecutorReplies.v: no answer without
+   error text unless the addressed task's Transition was executed; acknowledgements and refusals of a
+   live task delivered as they are) ... *)
+Theorem C02_executor_replies_faithful_in_source : executor_faithful = true.
+Proof. exact executor_faithful_in_source. Qed.
+Print Assumptions C02_executor_replies_faithful_in_source.
+
+(* ... and without it nothing is promised: every command goes through. *)
+Theorem C02_cmd_needs_faithful_executor : forall ts oc,
+  executor_faithful = false -> res_ok (cmd_result ts oc) = true.
+Proof. exact cmd_unfaithful. Qed.
+Print Assumptions C02_cmd_needs_faithful_executor.
+
 Theorem C02_cmd_needs_intact_roster : forall ts oc,
   roster_intact = false -> (2 <= length (targets ts))%nat -> res_ok (cmd_result ts oc) = true.
 Proof. exact cmd_not_intact. Qed.
